@@ -183,8 +183,8 @@ U("addopt", entry="h_addopt", func="cfg_addopt", cbmc=unw(6) + OOM, label="bound
 # ------------------------------------------------------------------ path resolution (C11)
 RES = dict(harness="harness/resolve.c")
 U("parse_title", entry="h_parse_title", func="parse_title", defs={"quick": ["-DPATHN=5", "-DCFGV_FIXED_DUP=8"], "thorough": ["-DPATHN=7", "-DCFGV_FIXED_DUP=10"]},
-  cbmc={"quick": unw(7) + OOM + LEAK, "thorough": unw(9) + OOM + LEAK},
-  label="bounded(qualifier text <= 5 bytes quick / 7 thorough, all bytes; any allocation may fail; fixed-size string copies)", props=["C11", "C18", "C02"], term_props=["C11", "C02"], cost=40, **RES)
+  cbmc={"quick": unw(7) + NOOOM + LEAK, "thorough": unw(9) + NOOOM + LEAK},
+  label="bounded(qualifier text <= 5 bytes quick / 7 thorough, all bytes; the copy may fail (ghost); fixed-size string copies)", props=["C11", "C18", "C02"], term_props=["C11", "C02"], cost=40, **RES)
 COMBOTXT = ["single section", "multi section, by index", "multi titled section", "multi titled section, case-insensitive", "single titled section"]
 for _combo in range(5):
     for _ns in ((0, 1) if _combo in (0, 4) else (0, 1, 2)):
@@ -201,6 +201,10 @@ for _c in range(4):
       cbmc={"quick": unw(5) + NOOOM, "thorough": unw(6) + NOOOM},
       label="bounded(path <= 3 bytes quick / 4 thorough; recursion by contract on the extracted copy; %s section %s an instance)" % ("multi" if _c & 2 else "single", "with" if _c & 1 else "without"),
       props=["C14", "C11", "C02"], term_props=["C11", "C02"], cost=200, **RES)
+for _kind, _entry in (("getopt", "h_getopt_path"), ("getsec", "h_getsec_path")):
+    U("%s_deep_c0k1n5" % _kind, entry=_entry, func="cfg_getopt_secidx (three levels)", defs={"quick": ["-DPATHN=5", "-DNSEC=1", "-DTREE_COMBO=0", "-DTREE_DEEP", "-DCFGV_FIXED_DUP=8"]},
+      cbmc=unw(7) + NOOOM, timeout=1800, label="bounded(path <= 5 bytes over all bytes; three-level tree root{a, s{b, t{c}}}, single sections; no allocation failure)",
+      props=["C11", "C02"], term_props=["C11", "C02"], cost=900, **RES)
 U("getopt_array_leaf", entry="h_getopt_array_leaf", func="cfg_getopt_array (nested-call contract)", defs={"quick": ["-DPATHN=3", "-DCFGV_FIXED_DUP=8"]}, cbmc=unw(5) + NOOOM,
   label="bounded(name <= 3 bytes)", props=["C14", "C11", "C02"], term_props=["C11", "C02"], cost=20, **RES)
 
